@@ -224,7 +224,7 @@ func eqInts(a, b []int) bool {
 
 // renderBatch turns the members of a case into real raw changes (the candidate mutated as its
 // class says) and binds their specification ids to the real ids.
-func (tw *treeWorld) renderBatch(cs *caseRec, sub int) (batch []*treechangeproto.RawTreeChangeWithId, what string, candR reading) {
+func (tw *treeWorld) renderBatch(cs *caseRec, sub int) (batch []*treechangeproto.RawTreeChangeWithId, what string, candR reading, genuine *treechangeproto.RawTreeChangeWithId) {
 	what = "unchanged"
 	for k, m := range cs.B {
 		var raw *treechangeproto.RawTreeChangeWithId
@@ -250,6 +250,7 @@ func (tw *treeWorld) renderBatch(cs *caseRec, sub int) (batch []*treechangeproto
 			base := tw.renderPlain(m)
 			raw = base
 			if k == cs.D.Pos {
+				genuine = base
 				raw, what = tw.mutate(m, cs.D.M, sub, base)
 				candR = tw.read(raw.Id, raw.RawChange)
 			}
@@ -288,7 +289,26 @@ func (r *runner) runCase(c *ctxFile, tw *treeWorld, cs *caseRec, mode string, su
 			tw.rev[v] = k
 		}
 	}()
-	batch, what, candR := tw.renderBatch(cs, sub)
+	batch, what, candR, genuine := tw.renderBatch(cs, sub)
+	if cs.D.Pre && genuine != nil {
+		// an earlier call: the genuine candidate arrives on its own, before its parent (the batch
+		// member in front of it) is known here. Nothing may be added, nothing may change.
+		pre0 := tw.observe()
+		var (
+			res0 objecttree.AddResult
+			err0 error
+		)
+		callCode("AddRawChanges(child before its parent)", func() {
+			tw.tree.Lock()
+			defer tw.tree.Unlock()
+			res0, err0 = tw.tree.AddRawChanges(bg, objecttree.RawChangesPayload{NewHeads: []string{genuine.Id}, RawChanges: []*treechangeproto.RawTreeChangeWithId{genuine}})
+		})
+		if d := diffNoOp(pre0, tw.observe()); d != "" || len(res0.Added) > 0 {
+			r.rep.Violate("orphan-child-taken|m="+cs.D.M, fmt.Sprintf("a change whose parent is unknown was taken (err=%v, added=%d, %s changed) [context %s; batch %s]",
+				err0, len(res0.Added), d, c.key(), cs.D), rp())
+		}
+		what += "; its genuine bytes were delivered alone, before the parent, in an earlier call"
+	}
 	tw.touched = true
 	// the rendering must realise the class the specification talks about; a byte flip that
 	// happens to leave a still-authentic change is delivered too, but only the oracles judge it
@@ -502,7 +522,7 @@ func (r *runner) validateRawTree(c *ctxFile, tw *treeWorld, cs *caseRec, sub int
 	for k, v := range tw.ids {
 		saved[k] = v
 	}
-	batch, _, _ := tw.renderBatch(cs, sub)
+	batch, _, _, _ := tw.renderBatch(cs, sub)
 	tw.ids = saved
 	tw.rev = map[string]int{}
 	for k, v := range saved {
